@@ -286,7 +286,8 @@ fn plain_cases(tier: Tier) -> Vec<Case> {
                     for b in first1 {
                         for c in first1 {
                             v.push(make_case(&[vec![a], vec![b], vec![c, L::Ping]], cause, Resolver::Halt, mb, None));
-                            v.push(make_case(&[vec![a, L::CallAddr], vec![b], vec![c]], cause, Resolver::JoinTwice, mb, Some(5)));
+                            let r2 = if resolvers_for(cause).contains(&Resolver::JoinTwice) && a != L::CallOwn { Resolver::JoinTwice } else { Resolver::Halt };
+                            v.push(make_case(&[vec![a, L::CallAddr], vec![b], vec![c]], cause, r2, mb, Some(5)));
                         }
                     }
                 }
